@@ -4,7 +4,7 @@ import DsProofs.Properties.C11Units
 # TIER — the unit / candidate registry AS IT IS WRITTEN NOW (`GenR/Units.lean`, regenerated from `/repo/datascope/utility/provenance.py` on every run by
 `harness/translate_units.py`) is the model `Ds.Units`
 
-* `TIER_init`, `TIER_getitem`, `TIER_union`: `Units(...)`, `units[key]`, `Units.union` are the model's `mk`, `getItem`, `union`.
+* `TIER_init`, `TIER_getitem`, `TIER_union`, `TIER_prefix`, `TIER_union_prefixed`: `Units(...)`, `units[key]`, `Units.union`, `Units.prefix` are the model's `mk`, `getItem`, `union`, `prefixWith`.
 * `TIER_eq_ok`, `TIER_eq_err`: `units[key] == value` — `Units.__getitem__` followed by `Unit.__eq__` — is the model's `eqPred`: on success the registry afterwards and the
   stored pair `Equality.data`; on failure the exception class, and the registry keeps the key that `units[key]` appended before the comparison failed.
 * `TIER_from_data`: the lookups of `Equality.from_data` are the model's `fromData`.
@@ -118,6 +118,13 @@ theorem TIER_union (u o : U) : GenR.units_union (regOf u) (regOf o) = regOf (uni
       simp only [List.foldl_cons]
       by_cases hc : init.contains x <;> simp [hc, ih]
   simp only [h]
+
+theorem TIER_prefix (f : Int → Int) (u : U) : GenR.units_prefix f (regOf u) = regOf (prefixWith u f) := rfl
+
+/-- `Units.union(other, prefix, other_prefix)`: both registries renamed first, then merged — the model's `union` of the two `prefixWith` -/
+theorem TIER_union_prefixed (f g : Int → Int) (u o : U) :
+    GenR.units_union (GenR.units_prefix f (regOf u)) (GenR.units_prefix g (regOf o)) = regOf (union (prefixWith u f) (prefixWith o g)) := by
+  rw [TIER_prefix, TIER_prefix, TIER_union]
 
 /-- the pair stored for `units[key] == value` reads back as `(key, value)`, and no other pair does — for the source as written -/
 theorem TIER_roundtrip (u u' : U) (k v : Int) (d : Nat × Nat) (hI : DsProofs.Units.Inv u) (h : eqPred u k v = (u', .ok d)) :
